@@ -37,10 +37,12 @@ def scan (validDate : Str â†’ Bool) (isZoq : Bool) : Nat â†’ Bool â†’ List Str â
     let isUrl := hasSub "[!".toList w && hasSub "]".toList w
     let isCite := "z::".toList.isPrefixOf w
     let zidWord := stripSet ['[', ']'] w
-    let targetable := isZid validDate zidWord && (found || isZoq || i == 0)
-    if isLink || isLocal || isId || isRid || isUrl || isCite then .word w :: scan validDate isZoq (i + 1) found rest
-    else if targetable then .zid zidWord :: scan validDate isZoq (i + 1) found rest
-    else if !found && !isPrefixSymbol w && !isPriority w && !(isSixDigits w && validDate w) && !isZid validDate w then
+    let bare := isZid validDate w
+    let targetable := isZid validDate zidWord && (found || isZoq || i == 0 || !bare)
+    if isLink || isLocal || isId || isRid || isUrl || isCite then .word w :: scan validDate isZoq (i + 1) true rest
+    else if targetable then .zid zidWord :: scan validDate isZoq (i + 1) true rest
+    else if bare then scan validDate isZoq (i + 1) true rest      -- the primary ZID
+    else if !found && !isPrefixSymbol w && !isPriority w && !(isSixDigits w && validDate w) then
       scan validDate isZoq (i + 1) true rest
     else scan validDate isZoq (i + 1) found rest
 
